@@ -546,8 +546,11 @@ def generate(rng, out_dir, n_types=30, root_name="vns", profile=None):
             d = root / sub if sub else root
             d.mkdir(parents=True, exist_ok=True)
             is_service = rng.random() < prof["p_service"]
+            force_port = False
+            if n_types >= 4 and k in (1, 2):      # every namespace has a service and a message with a fixed port-ID
+                is_service, force_port = (k == 1), True
             prefix = ""
-            if rng.random() < prof["p_fixed_port"]:
+            if force_port or rng.random() < prof["p_fixed_port"]:
                 while True:
                     pid = rng.randint(0, 511 if is_service else 8191)
                     s = used_service if is_service else used_subject
